@@ -262,6 +262,7 @@ class CovEnv(object):
         self.state = {}          # values read by callable targets / iff callables
         self.enums = {}
         self.fn_calls = 0
+        self.shared_specs = {}
         for e in prog.get("enums", []):
             self.enums[e["name"]] = enum.IntEnum(e["name"] + tag, [(n, v) for (n, v) in e["items"]])
         self.classes = {}
@@ -316,7 +317,15 @@ class CovEnv(object):
                     else:
                         kw["cp_t"] = vsc.int_t(sdef["w"]) if sdef.get("s") else vsc.bit_t(sdef["w"])
                 if cp.get("bins"):
-                    kw["bins"] = {n: env._spec(s) for n, s in cp["bins"].items()}
+                    if cp.get("share"):
+                        # one dict of bin objects declared once (module level) and used by
+                        # several coverpoints / instances
+                        key = (cg["name"], variant, cp["share"])
+                        if key not in env.shared_specs:
+                            env.shared_specs[key] = {n: env._spec(s) for n, s in cp["bins"].items()}
+                        kw["bins"] = env.shared_specs[key]
+                    else:
+                        kw["bins"] = {n: env._spec(s) for n, s in cp["bins"].items()}
                 if cp.get("ignore"):
                     kw["ignore_bins"] = {n: vsc.bin(*env._items(it, True)) for n, it in cp["ignore"].items()}
                 if cp.get("illegal"):
